@@ -40,9 +40,8 @@ func (m *Multi) Open(name string) (io.ReadCloser, error) {
 		if !loader.Exists(name) {
 			continue
 		}
-		if f, err := loader.Open(name); err == nil {
-			return f, nil
-		}
+		// this loader has the file: its answer is the answer, also when opening fails
+		return loader.Open(name)
 	}
 	return nil, &os.PathError{Op: "open", Path: name, Err: os.ErrNotExist}
 }
